@@ -505,6 +505,13 @@ func (g *logGen) msgs(v1 bool) {
 			abs += int64(1 + r.Intn(3)) // compaction gap inside the wrapper
 		}
 	}
+	// a v1 wrapper stamped LogAppendTime by the broker: attribute bit 3 and the append time on the wrapper only; the log
+	// format gives every inner message the wrapper's timestamp and timestamp type (repaired in /repo 581b089)
+	lat := v1 && r.Chance(30)
+	wrapTs := int64(1500000000000) + r.Range(0, 1000)
+	if lat {
+		lb.attrs |= 8
+	}
 	lastAbs := absOffs[n-1]
 	relBase := absOffs[0]
 	if v1 && r.Chance(20) {
@@ -522,7 +529,11 @@ func (g *logGen) msgs(v1 bool) {
 		}
 		innerV1 := v1
 		inner = append(inner, encMsg(innerV1, stored, 0, ts, key, val)...)
-		lb.recs = append(lb.recs, lrec{off: absOffs[i], ts: ts, hasTs: innerV1, key: key, val: val})
+		recTs := ts
+		if lat {
+			recTs = wrapTs
+		}
+		lb.recs = append(lb.recs, lrec{off: absOffs[i], ts: recTs, hasTs: innerV1, key: key, val: val})
 	}
 	if v1 && lastAbs == 0 {
 		// wrapper offset 0 is the "use inner offsets as is" quirk; avoid it in the well-formed stream
@@ -532,7 +543,12 @@ func (g *logGen) msgs(v1 bool) {
 	lb.present = n
 	lb.last = lastAbs
 	wrapOff := lastAbs
-	lb.raw = encMsg(v1, wrapOff, int8(codec), int64(1500000000000), nil, compress(codec, inner))
+	wattrs := int8(codec)
+	if lat {
+		wattrs |= 8
+		g.st["v1-wrapper-logappendtime"]++
+	}
+	lb.raw = encMsg(v1, wrapOff, wattrs, wrapTs, nil, compress(codec, inner))
 	g.batches = append(g.batches, lb)
 	g.off = lastAbs + 1
 	g.st[ver+"-wrapper"]++
@@ -938,6 +954,14 @@ func main() {
 				hx.St.Inc(fmt.Sprintf("log-batches:%d", min(nb, 10)))
 				if !strings.HasPrefix(t[9], fmt.Sprintf("%d/", nb)) {
 					hx.St.Inc("truncated-response")
+				}
+				for _, b := range strings.Split(d, ";") {
+					// first,last,pid,pepoch,lepoch,attrs,…: a message-set batch (leader epoch -1) with a codec and the LogAppendTime bit
+					if f := strings.Split(b, ","); len(f) >= 6 && f[4] == "-1" {
+						if at := hx.Atoi(f[5]); at&8 != 0 && at&7 != 0 {
+							hx.St.Inc("v1-wrapper-logappendtime")
+						}
+					}
 				}
 			}
 			res := runImpl(c, dec)
